@@ -1,5 +1,133 @@
+import SamVerif.Model.Gc
 import Driver.Util
-/-! Line-protocol driver for property C11 (model side). Not implemented yet. -/
+/-!
+Driver for C11: replays the heap-call log of one real language-server operation (update / rename /
+remove / new, recorded by the `Heap::verif_log` hook) through the heap model, and checks that the GC
+part of the log is exactly one `gcStep` of `Model/Gc.lean` (the function the theorems of
+`Props/C11.lean` are about) with the model's constants, announcing every current module.
+
+input line :  `reset`  |  `op mods=<id,id,..> log=<tokens>`
+tokens     :  A<hex> alloc_string | S<hex> alloc_static | T alloc_temp | R<h,h,..> alloc_module_ref
+              U<m> add_unmarked | P<m> pop | M<h> mark | W<n> sweep        (h = i<hex> | r<id>)
+answer     :  `stat=<total,used,unused> gc=<verdict>`
+-/
+namespace Driver.C11
+open SamVerif.Heap SamVerif.Gc Driver
+
+def parseHandle (s : String) : Handle :=
+  if s.startsWith "r" then .ref ((s.drop 1).toString.toNat!) else .inl (bytesOfHex (s.drop 1).toString)
+
+def parseHandles (s : String) : List Handle :=
+  if s.isEmpty then [] else (s.splitOn ",").map parseHandle
+
+inductive Tok where
+  | op (o : Op)
+  | pop (m : Nat)
+  deriving Repr
+
+def parseTok (h : Heap) (t : String) : Option Tok :=
+  let rest := (t.drop 1).toString
+  match t.toList.head? with
+  | some 'A' => some (.op (.allocString (bytesOfHex rest)))
+  | some 'S' => some (.op (.allocStatic (bytesOfHex rest)))
+  | some 'T' => some (.op (.allocTemp ("_t" ++ toString h.slots.length).toUTF8.toList))
+  | some 'R' => some (.op (.allocModuleRef (parseHandles rest)))
+  | some 'U' => some (.op (.addUnmarked rest.toNat!))
+  | some 'P' => some (.pop rest.toNat!)
+  | some 'M' => some (.op (.mark (parseHandle rest)))
+  | some 'W' => some (.op (.sweep rest.toNat!))
+  | _ => none
+
+/-- Sequential replay of all tokens. -/
+def replay (h : Heap) : List String → Heap
+  | [] => h
+  | t :: ts =>
+    match parseTok h t with
+    | some (.op o) => replay (step h o) ts
+    | some (.pop m) => replay ((popUnmarked h (some m)).getD h) ts
+    | none => replay h ts
+
+def isGcTok (t : String) : Bool :=
+  match t.toList.head? with
+  | some 'U' | some 'P' | some 'M' | some 'W' => true
+  | _ => false
+
+/-- Groups `P m  M.. M..` segments into modules (id, marks) in pop order. -/
+def groupModules : List String → List Module → List Module
+  | [], acc => acc.reverse
+  | t :: ts, acc =>
+    let rest := (t.drop 1).toString
+    match t.toList.head? with
+    | some 'P' => groupModules ts (⟨rest.toNat!, []⟩ :: acc)
+    | some 'M' =>
+      match acc with
+      | md :: more => groupModules ts ({ md with marks := md.marks ++ [parseHandle rest] } :: more)
+      | [] => groupModules ts acc
+    | _ => groupModules ts acc
+
+def shapeOk : List String → Nat → Bool
+  -- phase 0: U*, phase 1: (P M*)*, phase 2: after the single W
+  | [], ph => ph == 2
+  | t :: ts, ph =>
+    match t.toList.head?, ph with
+    | some 'U', 0 => shapeOk ts 0
+    | some 'P', 0 => shapeOk ts 1
+    | some 'P', 1 => shapeOk ts 1
+    | some 'M', 1 => shapeOk ts 1
+    | some 'W', 0 => shapeOk ts 2
+    | some 'W', 1 => shapeOk ts 2
+    | _, _ => false
+
+def natList (s : String) : List Nat :=
+  if s.isEmpty then [] else (s.splitOn ",").map String.toNat!
+
+def field (ws : List String) (key : String) : String :=
+  match ws.find? (·.startsWith (key ++ "=")) with
+  | some w => (w.drop (key.length + 1)).toString
+  | none => ""
+
+def step (h : Heap) (line : String) : Heap × String :=
+  let ws := words line
+  match ws with
+  | ["reset"] => (init, "stat=0,0,0 gc=none")
+  | "op" :: _ =>
+    let mods := natList (field ws "mods")
+    -- everything after `log=` are tokens (the first one is glued to `log=`)
+    let toks := match ws.dropWhile (fun w => !w.startsWith "log=") with
+      | [] => []
+      | l :: rest => ((l.drop 4).toString :: rest).filter (· ≠ "")
+    let allocToks := toks.takeWhile (fun t => !isGcTok t)
+    let gcToks := toks.dropWhile (fun t => !isGcTok t)
+    let h1 := replay h allocToks
+    let h2 := replay h1 gcToks
+    let (t, u, d) := stat h2
+    let verdict :=
+      if gcToks.isEmpty then "none"
+      else if gcToks.any (fun t => !isGcTok t) then "ALLOC-DURING-GC"
+      else if !shapeOk gcToks 0 then "BAD-SHAPE"
+      else
+        let changed := gcToks.filterMap fun t =>
+          if t.startsWith "U" then some (t.drop 1).toString.toNat! else none
+        let all := groupModules gcToks []
+        let choices : List (Option Nat) := (all.map fun md => some md.id) ++ [none]
+        let work := (gcToks.filterMap fun t =>
+          if t.startsWith "W" then some (t.drop 1).toString.toNat! else none).headD 0
+        -- the current modules are exactly the checked modules; all must be announced
+        if !(mods.all (· ∈ changed)) then "UNANNOUNCED-MODULE"
+        else if work ≠ numSweepUnit then "SWEEP-UNIT"
+        else if all.length > numModuleMarkedPerSlice then "SLICE-EXCEEDED"
+        else
+          -- modules announced but absent from `all` were not popped: fine (gate) — but the model
+          -- needs every popped id that carries marks to be a module
+          let g := gcStep h1 all changed numModuleMarkedPerSlice numSweepUnit choices
+          if g = h2 then "ok" else "GCSTEP-MISMATCH"
+    (h2, s!"stat={t},{u},{d} gc={verdict}")
+  | _ => (h, "bad-op")
+
+def run : IO Unit := runLoop init step
+
+end Driver.C11
+
 def main (_args : List String) : IO UInt32 := do
-  IO.eprintln "drv-c11: not implemented yet"
-  return 2
+  Driver.C11.run
+  return 0
